@@ -17,6 +17,11 @@ class Undecided(Exception):
     """The executor met something it does not model; never mapped to a violation."""
 
 
+class InstanceTimeout(BaseException):
+    """wall-clock limit of one contract instance (raised from a SIGALRM handler); not an Exception so that it
+    is never mistaken for an outcome of the code under contract"""
+
+
 class Infeasible(Exception):
     """The current path condition is unsatisfiable; the path is dropped."""
 
